@@ -207,6 +207,13 @@ def answer (op : String) (args : List String) : String :=
     match decodeVersion a with
     | some a => encodeText a.render
     | none => "badreq"
+  | "vsort", vs =>
+    match vs.mapM decodeVersion with
+    | some vs =>
+      let showList (l : List Version) : String :=
+        if l.isEmpty then "-" else "|".intercalate (l.map encodeVersion)
+      s!"{showList (sortVersions vs)} max={showVersionOpt (maxBy cmpVersion vs)} min={showVersionOpt (minBy cmpVersion vs)} unstable=1 set={showList (setOfVersions vs)}"
+    | none => "badreq"
   | "vparse", [t] =>
     match decodeText t with
     | some t => match Version.parse t with
@@ -465,6 +472,50 @@ def check (op : String) (args : List String) (impl : String) : List (String × S
       (if okOrd then [] else [("C04", s!"cmp/eq: crate `{impl}` spec `{want}`")]) ++
       (if okHash then [] else [("C04", "equal versions hash differently")])
     | _, _ => []
+  | "vsort", vs =>
+    -- the crate's sorted list must ascend by the spec's precedence and be a rearrangement of the input;
+    -- max/min must be extreme; the set must hold one element per precedence class
+    match vs.mapM decodeVersion with
+    | some vs =>
+      let field (k : String) : Option String :=
+        (impl.splitOn " ").findSome? (fun f => if f.startsWith (k ++ "=") then some ((f.drop (k.length + 1)).toString) else none)
+      let listOf (f : String) : Option (List Version) :=
+        if f == "-" then some [] else (f.splitOn "|").mapM decodeVersion
+      let ascending (l : List Version) : Bool :=
+        (l.zip l.tail).all (fun p => prec p.1 p.2 != .gt)
+      let strictly (l : List Version) : Bool :=
+        (l.zip l.tail).all (fun p => prec p.1 p.2 == .lt)
+      let count (l : List Version) (x : Version) : Nat := (l.filter (fun y => encodeVersion y == encodeVersion x)).length
+      let sorted := listOf ((impl.splitOn " ").headD "-")
+      let setL := (field "set").bind listOf
+      let r1 := match sorted with
+        | some l =>
+          (if ascending l then [] else [("C04", "sorted list does not ascend by SemVer precedence")]) ++
+          (if l.length == vs.length && vs.all (fun x => count l x == count vs x) then []
+           else [("C04", "sorted list is not a rearrangement of the input")])
+        | none => [("C04", s!"sort: unreadable answer `{impl}`")]
+      let r2 := match field "max" with
+        | some m => if vs.isEmpty then (if m == "none" then [] else [("C04", "max of an empty list")])
+          else match decodeVersion m with
+            | some mv => if vs.all (fun y => prec y mv != .gt) && vs.any (fun y => encodeVersion y == m) then []
+                         else [("C04", s!"max is not a greatest element: `{m}`")]
+            | none => [("C04", s!"max: `{m}`")]
+        | none => [("C04", "no max field")]
+      let r3 := match field "min" with
+        | some m => if vs.isEmpty then (if m == "none" then [] else [("C04", "min of an empty list")])
+          else match decodeVersion m with
+            | some mv => if vs.all (fun y => prec mv y != .gt) && vs.any (fun y => encodeVersion y == m) then []
+                         else [("C04", s!"min is not a least element: `{m}`")]
+            | none => [("C04", s!"min: `{m}`")]
+        | none => [("C04", "no min field")]
+      let r4 := if field "unstable" == some "1" then [] else [("C04", "sort_unstable disagrees with sort up to build metadata")]
+      let r5 := match setL with
+        | some l =>
+          if strictly l && vs.all (fun x => l.any (fun y => prec x y == .eq)) && l.all (fun y => vs.any (fun x => encodeVersion x == encodeVersion y))
+          then [] else [("C04", "BTreeSet iteration is not one ascending representative per precedence class")]
+        | none => [("C04", "set: unreadable")]
+      r1 ++ r2 ++ r3 ++ r4 ++ r5
+    | none => []
   | "vdiff", [a, b] =>
     match decodeVersion a, decodeVersion b with
     | some a, some b =>
